@@ -23,6 +23,24 @@ Theorem C01_simplify_preserves_partial :
 Proof. intros T sel p Hwf Hnd orc args. exact (simp_preserves T orc sel p args Hwf Hnd). Qed.
 Print Assumptions C01_simplify_preserves_partial.
 
+(* any finite sequence of applications, each with its own selection of setups: the certificate
+   survives every application (simp_wf), and the register-level trace relation is transitive *)
+Theorem C01_simplify_sequence_partial :
+  forall (T : val -> astate) (sels : list (val -> bool)) (p : prog),
+  wf_prog T p = true -> block_fields_nodup (p_body p) = true ->
+  forall (orc : oracle) (args : list Z),
+  trace_sim_b (run orc p args) (run orc (simp_seq T sels p) args) = true.
+Proof. intros T sels p Hwf Hnd orc args. exact (simp_seq_preserves T orc sels p args Hwf Hnd). Qed.
+Print Assumptions C01_simplify_sequence_partial.
+
+(* the certified table stays certified for the rewritten program (what the next rule relies on) *)
+Theorem C01_simplify_keeps_certificate :
+  forall (T : val -> astate) (sel : val -> bool) (p : prog),
+  wf_prog T p = true -> block_fields_nodup (p_body p) = true ->
+  wf_prog T (simp_prog sel T p) = true /\ block_fields_nodup (p_body (simp_prog sel T p)) = true.
+Proof. intros T sel p Hwf Hnd. exact (simp_wf T sel p Hwf Hnd). Qed.
+Print Assumptions C01_simplify_keeps_certificate.
+
 (* run-wise form: ANY table, any run that the instrumented semantics does not flag *)
 Theorem C01_simplify_preserves_unflagged_runs :
   forall (T : val -> astate) (sel : val -> bool) (p : prog) (orc : oracle) (args : list Z),
